@@ -18,6 +18,7 @@ EXPLANATION = (
     "resets it; nothing assigns into the shared pre-state; process-wide mutable state is limited to a reviewed "
     "list; uid() randomness only flows into symbol names. It does not run test orders."
     " Also evaluated here: per-function configuration layers are built from the contract's configuration, never from the previous function's (C18 R18.4)."
+    ' Round 5: no dataclass default that is one shared object, results of the memoising get_var_set are not modified by callers (R20.10); key/signature bookkeeping is not shared between the post-setUp state and the tests started from it.'
 )
 ASSUMPTIONS = [
     "deepcopy semantics; z3 terms are immutable",
